@@ -133,3 +133,136 @@ Proof.
     + eapply step_pinv; eauto.
     + eapply step_finv; eauto.
 Qed.
+
+(** * Order facts that follow from the core invariant *)
+Lemma started_enqueued c s n : Inv c s -> In (EStart n) (hist s) -> 0 < lc n s.
+Proof.
+  intros I H. apply count_ev_in in H. pose proof (i_started _ _ I n).
+  pose proof (csum_le (post n) (hn n) (ws s) (post_le_hn n)). unfold lc. lia.
+Qed.
+
+Lemma started_preds_ok c s n :
+  Inv c s -> In (EStart n) (hist s) -> forall p, In p (preds (g c) n) -> In (EOk p) (hist s).
+Proof.
+  intros I H p Hp. apply (i_stepped _ _ I p n). apply (i_ready _ _ I n); auto. eapply started_enqueued; eauto.
+Qed.
+
+Lemma ok_started c s n : Inv c s -> In (EOk n) (hist s) -> In (EStart n) (hist s).
+Proof. intros I H. apply count_ev_in in H. apply count_ev_in. pose proof (i_fin _ _ I n). lia. Qed.
+
+Lemma fail_started c s n : Inv c s -> In (EFail n) (hist s) -> In (EStart n) (hist s).
+Proof. intros I H. apply count_ev_in in H. apply count_ev_in. pose proof (i_fin _ _ I n). lia. Qed.
+
+Lemma started_ancestors_ok c s n :
+  Inv c s -> In (EStart n) (hist s) -> forall m, reach (g c) m n -> In (EOk m) (hist s).
+Proof.
+  intros I H m Hr. induction Hr as [a b Hab|a k b Hak IH Hkb].
+  - apply (started_preds_ok c s b I H). apply in_preds. exact Hab.
+  - apply IH. apply (ok_started c s k I). apply (started_preds_ok c s b I H). apply in_preds. exact Hkb.
+Qed.
+
+(** C06: nothing downstream of a failed call is ever started (any max_errors, workers, interleaving) *)
+Theorem no_downstream c s m n :
+  cfg_ok c -> reachable c s -> In (EFail m) (hist s) -> reach (g c) m n -> ~ In (EStart n) (hist s).
+Proof.
+  intros Hc Hr Hf Hmn Hs. pose proof (inv_reachable c s Hc Hr) as I.
+  destruct (c_f c s (cinv_reachable c s Hc Hr)) as [F1 F2].
+  pose proof (F1 m (started_ancestors_ok c s n I Hs m Hmn)). pose proof (F2 m Hf). congruence.
+Qed.
+
+Theorem started_no_failed_ancestor c s n :
+  cfg_ok c -> reachable c s -> In (EStart n) (hist s) -> forall m, reach (g c) m n -> fails c m = false.
+Proof.
+  intros Hc Hr Hs m Hmn. pose proof (inv_reachable c s Hc Hr) as I.
+  apply (proj1 (c_f c s (cinv_reachable c s Hc Hr))). eapply started_ancestors_ok; eauto.
+Qed.
+
+(** * The final state of an uninterrupted run *)
+Lemma final_counts c s n :
+  cfg_ok c -> reachable c s -> final s -> intr s = None ->
+  lc n s = count_ev (EDone n) (hist s) /\
+  count_ev (EStart n) (hist s) + count_ev (ESkip n) (hist s) = count_ev (EDone n) (hist s) /\
+  count_ev (EStart n) (hist s) = count_ev (EOk n) (hist s) + count_ev (EFail n) (hist s).
+Proof.
+  intros Hc Hr Hf Hi. pose proof (inv_reachable c s Hc Hr) as I.
+  destruct (final_quiet c s Hc Hr Hf Hi) as [Hq Hw].
+  pose proof (csum_le (hn n) noisy (ws s) (hn_le_noisy n)).
+  pose proof (csum_le (post n) (hn n) (ws s) (post_le_hn n)).
+  pose proof (csum_le (runs n) (post n) (ws s) (runs_le_post n)).
+  pose proof (i_started _ _ I n). pose proof (i_fin _ _ I n). specialize (Hq n). unfold lc. lia.
+Qed.
+
+Lemma final_no_succ_worker c s w p todo :
+  cfg_ok c -> reachable c s -> final s -> intr s = None -> nth_error (ws s) w <> Some (WSucc p todo).
+Proof.
+  intros Hc Hr Hf Hi Hw. destruct (final_quiet c s Hc Hr Hf Hi) as [_ Hz].
+  pose proof (csum_0_nth _ _ _ _ Hz Hw) as Hn. discriminate.
+Qed.
+
+(** every node none of whose ancestors failed in this run has been started, provided nothing was skipped *)
+Lemma final_complete c s :
+  cfg_ok c -> acyclic (g c) -> reachable c s -> final s -> intr s = None ->
+  (forall n, ~ In (ESkip n) (hist s)) ->
+  forall n, In n (nodes (g c)) -> (forall m, reach (g c) m n -> ~ In (EFail m) (hist s)) ->
+            In (EStart n) (hist s).
+Proof.
+  intros Hc [rank Hrank] Hr Hf Hi Hns. pose proof (inv_reachable c s Hc Hr) as I.
+  destruct (cinv_reachable c s Hc Hr) as [O P _].
+  assert (Hind : forall r n, rank n < r -> In n (nodes (g c)) ->
+            (forall m, reach (g c) m n -> ~ In (EFail m) (hist s)) -> In (EStart n) (hist s)).
+  { induction r as [|r IH]; intros n Hlt Hn Hanc; [lia|].
+    assert (Hlc : 0 < lc n s).
+    { apply P; auto. intros p Hp. apply in_preds in Hp.
+      assert (Hsp : In (EStart p) (hist s)).
+      { apply IH.
+        - specialize (Hrank p n Hp). lia.
+        - destruct Hc as [[_ Hwf] _]. apply (Hwf p n Hp).
+        - intros m Hm. apply Hanc. eapply reachS; eauto. }
+      assert (Hok : In (EOk p) (hist s)).
+      { destruct (final_counts c s p Hc Hr Hf Hi) as (_ & _ & E).
+        apply count_ev_in in Hsp. destruct (Nat.eq_dec (count_ev (EFail p) (hist s)) 0) as [Ez|Enz].
+        - apply count_ev_in. lia.
+        - exfalso. apply (Hanc p (reach1 _ _ _ Hp)). apply count_ev_in. lia. }
+      destruct (O p Hok) as [(w & todo & Hw)|Hall].
+      - exfalso. eapply final_no_succ_worker; eauto.
+      - apply Hall. apply in_succs. exact Hp. }
+    destruct (final_counts c s n Hc Hr Hf Hi) as (E1 & E2 & _).
+    apply count_ev_in. specialize (Hns n). rewrite <- count_ev_in in Hns. lia. }
+  intros n. apply (Hind (S (rank n))). lia.
+Qed.
+
+(** * C10: max_errors = None runs everything that can run *)
+Theorem none_runs_all c s :
+  cfg_ok c -> acyclic (g c) -> max_errors c = None -> intr s = None -> reachable c s -> final s ->
+  forall n, In n (nodes (g c)) ->
+    (In (EStart n) (hist s) <-> forall m, reach (g c) m n -> fails c m = false).
+Proof.
+  intros Hc Ha Hm Hi Hr Hf n Hn. split.
+  - intros Hs. apply (started_no_failed_ancestor c s n); auto.
+  - intros Hanc. apply (final_complete c s); auto.
+    + intros n'. apply (no_skip_before_limit c s n'); auto. unfold over_max. rewrite Hm. reflexivity.
+    + intros m Hmn Hfl. apply (proj2 (c_f c s (cinv_reachable c s Hc Hr))) in Hfl.
+      rewrite (Hanc m Hmn) in Hfl. discriminate.
+Qed.
+
+(** * C04: a successful run has executed every node exactly once *)
+Lemma returned_facts c s :
+  cfg_ok c -> reachable c s -> result s = Some Returned ->
+  final s /\ intr s = None /\ errc s = 0 /\ forall n, ~ In (EFail n) (hist s).
+Proof.
+  intros Hc Hr H. unfold result in H. destruct (co s) eqn:Hco; try discriminate.
+  destruct (intr s) eqn:Hi; [discriminate|]. destruct (first s) eqn:Hfi; [discriminate|].
+  assert (He : errc s = 0) by (apply (first_none_iff c s Hc Hr); exact Hfi).
+  repeat split; auto. apply nfail_0. rewrite (final_errc c s Hc Hr Hco Hi). exact He.
+Qed.
+
+Theorem success_exactly_once c s :
+  cfg_ok c -> acyclic (g c) -> reachable c s -> final s -> result s = Some Returned ->
+  forall n, In n (nodes (g c)) -> count_ev (EStart n) (hist s) = 1.
+Proof.
+  intros Hc Ha Hr Hf Hres n Hn. destruct (returned_facts c s Hc Hr Hres) as (_ & Hi & He & Hnf).
+  assert (Hs : In (EStart n) (hist s)).
+  { apply (final_complete c s); auto.
+    intros n'. apply (no_skip_before_limit c s n'); auto. rewrite He. unfold over_max. destruct (max_errors c); reflexivity. }
+  apply count_ev_in in Hs. pose proof (at_most_once c s n Hc Hr). lia.
+Qed.
